@@ -117,7 +117,7 @@ func runC17(c *mon.Ctx) {
 	c.MarkExhaustive(fmt.Sprintf("all protocol-respecting testdrv lifecycle histories of length %d over 7 operations, at the driver level and through midi.ListenTo", length))
 
 	// (b) concurrent histories on the process-backed driver
-	nh := c.N(64, 400)
+	nh := c.N(64, 1200)
 	c.Each("midicat", nh, func(i int64, r *mon.Rand) {
 		if c.Thorough() {
 			// vary the scheduler as well
